@@ -528,3 +528,62 @@ def uw7(P, C):
             det2 = "expected exactly one sort of the whole field [rho, rho + count); found %d (a pass that merges each run only with its neighbour " \
                    "does not sort the field when a kernel spans several knot intervals)" % len(sorts)
     C.ob("UW-7", "convolve", "whole-field-sorted", ok2, f.where(), det2)
+    # once sorted, the field and its count are only read: an in-place algorithm afterwards (std::unique with its result dropped, a rotate,
+    # a second partial sort) leaves a field that is no longer the sorted pairwise sums while count, coefficient count and blossoms assume it is
+    ok3, det3 = False, "the knot field or its sort is not identified"
+    if rho is not None and counter and ok2:
+        MUT = ("unique", "unique_copy", "remove", "remove_if", "rotate", "reverse", "fill", "fill_n", "transform", "replace", "replace_if", "swap_ranges",
+               "partition", "stable_partition", "nth_element", "partial_sort", "random_shuffle", "shuffle", "next_permutation", "prev_permutation",
+               "iota", "generate", "generate_n", "inplace_merge", "sort", "stable_sort", "make_heap", "sort_heap", "push_heap", "pop_heap", "swap", "iter_swap")
+        COPY_DST = {"copy": 2, "copy_n": 2, "copy_backward": 2, "move": 2, "copy_if": 2, "partial_sum": 2, "adjacent_difference": 2, "merge": 4, "memcpy": 0, "memmove": 0, "memset": 0}
+        si = sorts[0][0]
+        after = [x for x in reads if x not in late]
+        wr = []
+        for x in after:
+            # climb to the outermost expression that still denotes (part of) the field
+            y = x
+            while f.parent[y] >= 0 and f.k(f.parent[y]) in (set(core.TRANSPARENT) | {"ArraySubscriptExpr", "UnaryOperator", "BinaryOperator", "ConditionalOperator", "ParenExpr"}) \
+                    and not (f.k(f.parent[y]) == "BinaryOperator" and f.nodes[f.parent[y]].get("op") in ("=", "+=", "-=", "*=", "/=", "<", "<=", "==", "!=")) \
+                    and not (f.k(f.parent[y]) == "UnaryOperator" and f.nodes[f.parent[y]].get("op") in ("++", "--")):
+                if f.k(f.parent[y]) == "ArraySubscriptExpr" and f.nodes[f.parent[y]]["ch"][0] != y and f.strip(f.nodes[f.parent[y]]["ch"][0]) != f.strip(y):
+                    break        # the field is used as an index expression, not indexed
+                y = f.parent[y]
+            par = f.parent[y]
+            if par < 0:
+                continue
+            pk = f.k(par)
+            pn = f.nodes[par]
+            if pk in ("BinaryOperator", "CompoundAssignOperator") and pn.get("op") in ("=", "+=", "-=", "*=", "/=") and pn["ch"][0] == y and \
+                    f.k(f.strip(y)) in ("ArraySubscriptExpr", "UnaryOperator"):
+                wr.append((x, "assigned through"))
+            elif pk == "UnaryOperator" and pn.get("op") in ("++", "--") and f.k(f.strip(y)) in ("ArraySubscriptExpr",):
+                wr.append((x, "incremented"))
+            elif pn.get("callee") is not None and par != si:
+                cal = pn["callee"]
+                a = f.args(par)
+                k_ = next((n_ for n_, aa in enumerate(a) if aa == y or y in set(f.walk(aa))), None)
+                is_ptr = "*" in f.nodes[y].get("t", "") or "*" in f.nodes[f.strip(y)].get("t", "")
+                if not is_ptr:
+                    continue          # a knot VALUE is handed over
+                if cal["qname"].startswith("std::") or cal.get("externC"):
+                    if cal["name"] in MUT:
+                        wr.append((x, "handed to std::%s" % cal["name"]))
+                    elif cal["name"] in COPY_DST and k_ == COPY_DST[cal["name"]]:
+                        wr.append((x, "destination of %s" % cal["name"]))
+                else:
+                    t_ = f.nodes[y].get("t", "")
+                    if "const" not in t_:
+                        wr.append((x, "handed to %s as a pointer to non-const" % cal["name"]))
+        cw = [x for x in f.walk() if x in pos and ts.assign_parts(f, x) and f.k(f.strip(ts.assign_parts(f, x)[0])) == "DeclRefExpr" and
+              f.nodes[f.strip(ts.assign_parts(f, x)[0])]["decl"].get("id") == counter[0] and at(x) and ps and
+              ((at(x)[0] == ps[0] and ps[1] < at(x)[1]) or (at(x)[0] != ps[0] and ps[0] in dom.get(at(x)[0], ())))]
+        ok3 = not wr
+        det3 = ("after the sort the field is only read (%d uses)%s" % (len(after), "; the count is re-assigned after the sort (duplicates removed with the count kept in step)" if cw else "")) if ok3 else \
+            "after the sort the field is %s at %s: it is no longer the sorted sequence of all pairwise sums that the count, the coefficient count and the blossoms assume" % (wr[0][1], f.loc(wr[0][0]))
+        if not ok3 and cw and all(w[1] == "handed to std::unique" for w in wr):
+            # erase-unique with the count updated from the result is a consistent (if different) knot field: not this rule's business
+            uq = [f.parent[w[0]] for w in wr]
+            ok3 = all(any(x in set(f.walk(c)) for c in cw) for w in wr for x in [w[0]])
+            if ok3:
+                det3 = "duplicates removed with std::unique and the count re-assigned from its result"
+    C.ob("UW-7", "convolve", "field-read-only-after-sort", ok3, f.where(), det3)
